@@ -1,3 +1,100 @@
-(* placeholder, replaced by the real theorems *)
-Theorem placeholder_C08 : True. Proof. exact I. Qed.
-Print Assumptions placeholder_C08.
+(* C08 — Jumps act where they stand, chains concatenate in order, navigation terminates.
+   Property theorems only (proofs: Proofs/EngineJump.v, Proofs/EngineNav.v); for every story, every
+   author-code oracle and every state.  Navigation is the fuelled function goto_rec with
+   fuel = number of passages + 1 (goto); the visited list is shared along the chain. *)
+From Coq Require Import String Ascii List Bool ZArith Arith Lia.
+From Bardic Require Import PyStr Value Compiled Engine EngineBase EngineNav EngineParams EngineSem EngineJump.
+Import ListNotations.
+
+(* Navigation terminates: the model is a total function, and its fuel is never what decides the outcome -
+   any two fuels above (number of passages - passages already visited) give the same result, because the
+   visited list has no duplicates and only holds defined passages (pigeonhole).  goto uses such a fuel. *)
+Theorem goto_fuel_enough : forall orc ctxkeys st f1 f2 spec vis s,
+  NoDup vis -> incl vis (keys (passages st)) ->
+  List.length (passages st) < f1 + List.length vis ->
+  List.length (passages st) < f2 + List.length vis ->
+  goto_rec orc ctxkeys st f1 spec vis s = goto_rec orc ctxkeys st f2 spec vis s.
+Proof. exact goto_fuel_irrelevant. Qed.
+Print Assumptions goto_fuel_enough.
+
+Theorem goto_uses_enough_fuel : forall orc ctxkeys st extra spec s,
+  goto orc ctxkeys st spec s = goto_rec orc ctxkeys st (S (List.length (passages st)) + extra) spec [] s.
+Proof.
+  intros. unfold goto. apply goto_fuel_irrelevant; simpl; try lia.
+  - constructor.
+  - intros x [].
+Qed.
+Print Assumptions goto_uses_enough_fuel.
+
+(* A jump transfers control where it is reached: everything after it in the passage is skipped (the result
+   does not depend on what follows the jump - in particular only the first jump reached takes effect) ... *)
+Theorem jump_acts_where_it_stands : forall orc ctxkeys target args pre post post' s,
+  render_content orc ctxkeys (pre ++ TJump target args :: post) s =
+  render_content orc ctxkeys (pre ++ TJump target args :: post') s.
+Proof. exact jump_acts_where_it_stands_lemma. Qed.
+Print Assumptions jump_acts_where_it_stands.
+
+(* ... and text and directives before it are kept; the jump hands on its target with its arguments *)
+Theorem jump_keeps_what_precedes : forall orc ctxkeys target args pre post s s1 txt ds,
+  forallb (fun t => negb (is_marker t)) pre = true ->
+  render_content orc ctxkeys pre s = (s1, Ok (txt, None, ds)) ->
+  render_content orc ctxkeys (pre ++ TJump target args :: post) s
+  = (s1, Ok (txt, Some (jump_spec target args), ds)).
+Proof. exact jump_keeps_prefix_lemma. Qed.
+Print Assumptions jump_keeps_what_precedes.
+
+(* What is shown is the concatenation, in order, of every passage along the chain with the final passage's
+   choices: a successful goto enters the passage, executes it, renders it, and if rendering reached a jump
+   follows it and combines (chain_output: contents merged in order, render directives appended, choices and
+   input directives of the continuation). *)
+Theorem chain_concatenates : forall orc ctxkeys st f spec vis s s' o,
+  goto_rec orc ctxkeys st (S f) spec vis s = (s', Ok o) ->
+  exists pid args p s1 s3 s4 o1,
+    parse_spec spec = Ok (pid, args) /\ get_passage st pid = Some p /\ str_in pid vis = false /\
+    enter_scope orc p args s = (s1, Ok tt) /\
+    execute_passage orc ctxkeys st pid (enter_state s1 pid) = (s3, Ok tt) /\
+    render_passage orc ctxkeys st pid s3 = (s4, Ok o1) /\
+    out (nc s') = Some o /\
+    ((o_jump o1 = None /\ o = o1 /\ joinidx (nc s') = joinidx (nc s4) /\ log s' = log s4) \/
+     (exists t jo s5, o_jump o1 = Some t /\
+        goto_rec orc ctxkeys st f t (vis ++ [pid]) s4 = (s5, Ok jo) /\ o = chain_output o1 jo /\
+        joinidx (nc s') = joinidx (nc s5) /\ log s' = log s5)).
+Proof. exact goto_rec_inv. Qed.
+Print Assumptions chain_concatenates.
+
+Theorem chain_output_is_concatenation : forall o jo,
+  o_content (chain_output o jo) = merge_content (o_content o) (o_content jo) /\
+  o_choices (chain_output o jo) = o_choices jo /\ o_pid (chain_output o jo) = o_pid jo /\
+  o_render (chain_output o jo) = o_render o ++ o_render jo /\ o_input (chain_output o jo) = o_input jo.
+Proof. intros. repeat split. Qed.
+Print Assumptions chain_output_is_concatenation.
+
+(* A chain that comes back to a passage it already entered is reported (RuntimeError; ValueError only if the
+   arguments of that last jump do not bind) instead of being followed, with the position, variables and the
+   scope stack exactly as they were when the re-entry was attempted; the error propagates outwards unchanged
+   (bind) and every enclosing parameter scope is popped (C07 scope_balanced), so the engine stays usable. *)
+Theorem cycle_is_runtime_error : forall orc ctxkeys st f spec vis s pid args p,
+  parse_spec spec = Ok (pid, args) -> get_passage st pid = Some p -> str_in pid vis = true ->
+  exists s' e, goto_rec orc ctxkeys st (S f) spec vis s = (s', Exc e) /\
+               (e = RuntimeError \/ e = ValueError) /\ scopes s' = scopes s /\ nc s' = nc s.
+Proof. exact goto_rec_revisit. Qed.
+Print Assumptions cycle_is_runtime_error.
+
+Theorem usable_after_any_navigation : forall orc ctxkeys st e spec,
+  escopes (fst (goto_op orc ctxkeys st e spec)) = escopes e /\
+  undo_stack (fst (goto_op orc ctxkeys st e spec)) = undo_stack e /\
+  redo_stack (fst (goto_op orc ctxkeys st e spec)) = redo_stack e.
+Proof.
+  intros. split; [apply goto_op_scopes|]. unfold goto_op, run_nav.
+  destruct (goto orc ctxkeys st spec _); split; reflexivity.
+Qed.
+Print Assumptions usable_after_any_navigation.
+
+(* non-vacuity: a two-passage cycle in a concrete story is reported as RuntimeError *)
+Definition cyc_story : story :=
+  mkStory "A" [("A"%string, mkPassage "A" [] [TText "a"; TJump "B" ""] [] [] [] []);
+               ("B"%string, mkPassage "B" [] [TText "b"; TJump "A" ""] [] [] [] [])] [] [].
+Definition no_orc : pyorc := mkOrc (fun _ _ => Exc NameError) (fun _ _ => Exc NameError)
+                                   (fun _ _ => Exc ValueError) (fun _ _ => Exc SyntaxError).
+Example cycle_example : snd (init no_orc [] cyc_story []) = Exc RuntimeError.
+Proof. vm_compute. reflexivity. Qed.
